@@ -5,7 +5,9 @@
    base0 (cyclic or not, as DeltaSelector may produce when it reuses stored
    deltas) and ANY positive entry sizes (header + deflated payload). *)
 From Coq Require Import List NArith Arith Bool.
-From GoGit Require Import Base.Out Model.Delta Model.PackEnc Proofs.C06Apply Proofs.C06Diff Proofs.C07 Proofs.C07Varint Proofs.C07Acyclic.
+From Coq Require Import ZArith Lia.
+From GoGit Require Import Base.Out Model.Delta Model.PackEnc Model.DeltaSel Proofs.C06Apply Proofs.C06Diff Proofs.C07 Proofs.C07Varint Proofs.C07Acyclic
+  Proofs.C07Select Proofs.C07SelResolves.
 Import ListNotations.
 
 (* every requested node is written exactly once; the header count (= n, what head() writes) is the
@@ -79,6 +81,149 @@ Theorem C07_ofs_roundtrip : forall n rest, ofs_decode (ofs_encode n ++ rest) = S
 Proof. exact ofs_roundtrip. Qed.
 Print Assumptions C07_ofs_roundtrip.
 
+(* ---- DeltaSelector (Model/DeltaSel.v).  The selector is run with ANY permutation [order] that sort.Sort may
+   leave (the model rejects one that is not ordered by byTypeAndSize) and ANY function [dsz] giving the size of
+   getDelta's output for a (base, target) pair — the chooser's nondeterminism; delta and object sizes are
+   lengths, hence non-negative.  [select] returns the final Base / Depth fields and the returned order. *)
+Definition sizes_ok (objs : list sobj) : bool := forallb (fun o => (0 <=? so_size o)%Z) objs.
+Definition no_reuse_b (objs : list sobj) : bool :=
+  forallb (fun o => match so_stored o with None => true | Some _ => false end) objs.
+
+Lemma sizes_ok_spec : forall objs, sizes_ok objs = true -> forall u, (0 <= so_size (obj_at objs u))%Z.
+Proof.
+  intros objs H u. unfold sizes_ok in H. rewrite forallb_forall in H. unfold obj_at.
+  destruct (Nat.lt_ge_cases u (List.length objs)) as [Hlt|Hge].
+  - apply Z.leb_le. apply H. now apply nth_In.
+  - rewrite nth_overflow by exact Hge. cbn. apply Z.le_refl.
+Qed.
+
+Lemma no_reuse_b_spec : forall objs, no_reuse_b objs = true -> no_reuse objs.
+Proof.
+  intros objs H u. unfold no_reuse_b in H. rewrite forallb_forall in H. unfold obj_at.
+  destruct (Nat.lt_ge_cases u (List.length objs)) as [Hlt|Hge].
+  - specialize (H _ (nth_In objs (mkSObj 0 0 0 None) Hlt)). destruct (so_stored (nth u objs (mkSObj 0 0 0 None))); [discriminate | reflexivity].
+  - now rewrite nth_overflow by exact Hge.
+Qed.
+
+(* the depth guard, for EVERY selection (stored deltas reused or not): Depth is never negative, and every delta
+   the selector itself creates has Depth <= maxDepth (deltaSizeLimit grants no size above 8 against a base whose
+   Depth has reached maxDepth); every Base is an object of the returned list, and a reused delta's Base is the
+   object whose id the stored delta names as its base (fixAndBreakChains) *)
+Theorem C07_depth_bound : forall window objs order dsz st ord,
+  (forall b t, (0 <= dsz b t)%Z) -> sizes_ok objs = true ->
+  select window objs order dsz = inl (st, ord) ->
+  exists reused : nat -> bool,
+    (forall u, (0 <= sd st u)%Z /\ (reused u = false -> (sd st u <= maxDepth)%Z)) /\
+    (forall u b, sb st u = Some b ->
+       In b ord /\
+       (reused u = true -> exists bk asz, so_stored (obj_at objs u) = Some (bk, asz) /\ so_key (obj_at objs b) = bk)).
+Proof.
+  intros window objs order dsz st ord Hd Hs H.
+  destruct (select_edges window objs order dsz st ord Hd (sizes_ok_spec objs Hs) H) as [reused [A B]].
+  exists reused. split; assumption.
+Qed.
+Print Assumptions C07_depth_bound.
+
+(* chains <= maxDepth: when no stored delta is reused (any window; memory storage, or nothing stored as a delta)
+   every delta points to an object of the same (blob or tree) type in the returned list whose Depth is below maxDepth,
+   the recorded Depth of every object is the true length of its delta chain, at most maxDepth; the graph handed to
+   the encoder is acyclic (Depth decreases along Base), so the encoder keeps every chosen base
+   (C07_acyclic_keeps_deltas) and the chains IN THE PACK are at most maxDepth long *)
+Theorem C07_depth_bound_chains_partial : forall window objs order dsz st ord,
+  (forall b t, (0 <= dsz b t)%Z) -> sizes_ok objs = true -> no_reuse_b objs = true ->
+  select window objs order dsz = inl (st, ord) ->
+  let base0 := base_fun (sel_nodes objs st ord) in
+  (forall u b, sb st u = Some b ->
+     In u ord /\ In b ord /\ sd st u = (sd st b + 1)%Z /\ (sd st b < maxDepth)%Z /\
+     so_typ (obj_at objs b) = so_typ (obj_at objs u) /\ deltable (so_typ (obj_at objs u)) = true) /\
+  (forall fuel u, (Z.of_nat (chain_len (sb st) fuel u) <= maxDepth)%Z) /\
+  (forall fuel u, (Z.to_nat (sd st u) <= fuel)%nat -> Z.of_nat (chain_len (sb st) fuel u) = sd st u) /\
+  (forall fuel k, (Z.of_nat (chain_len base0 fuel k) <= maxDepth)%Z) /\
+  (forall esize es, encode (List.length ord) base0 esize = Some es -> forall k b off, In (k, b, off) es -> b = base0 k).
+Proof.
+  intros window objs order dsz st ord Hd Hs Hn H base0.
+  pose proof (select_noreuse_inv window objs order dsz st ord Hd (sizes_ok_spec objs Hs) (no_reuse_b_spec objs Hn) H) as HI.
+  destruct (select_noreuse_graph window objs order dsz st ord Hd (sizes_ok_spec objs Hs) (no_reuse_b_spec objs Hn) H) as [Hr Hc].
+  split; [|split; [|split; [|split]]].
+  - intros u b Hb. destruct HI as [Ha [Hb' _]]. destruct (in_dec Nat.eq_dec u ord) as [Hi|Hi].
+    + destruct (Hb' u Hi) as [[_ Hu] Hm]. rewrite Hb in Hm. destruct Hm as [M1 [M2 [M3 M4]]].
+      repeat split; auto. rewrite M2 in Hu. lia.
+    + destruct (Ha u Hi) as [E _]. rewrite E in Hb. discriminate.
+  - intros fuel u. pose proof (chain_len_le_depth objs ord st HI fuel u) as L.
+    destruct HI as [Ha [Hb _]]. destruct (in_dec Nat.eq_dec u ord) as [Hi|Hi].
+    + destruct (Hb u Hi) as [[_ Hu] _]. eapply Z.le_trans; eassumption.
+    + destruct (Ha u Hi) as [_ E]. rewrite E in L. eapply Z.le_trans; [exact L|]. apply Z.lt_le_incl. exact maxDepth_pos.
+  - intros fuel u Hf. now apply (chain_len_eq_depth objs ord st HI).
+  - exact Hc.
+  - intros esize es He k b off Hin.
+    exact (encode_acyclic base0 esize (fun k => Z.to_nat (sd st (nth k ord 0%nat))) Hr (List.length ord) es He k b off Hin).
+Qed.
+Print Assumptions C07_depth_bound_chains_partial.
+
+(* the full statement (chains <= maxDepth for every selection) is false once stored deltas are reused: Depth is
+   computed when fixAndBreakChains assigns the stored bases and is not updated when the walk later deltifies the
+   root of a stored chain.  Witness (window 2): x0..x20 each a delta of its predecessor, r a delta of x20 (Depth 21),
+   c1..c30 a stored chain on r with recorded Depth 1..30: c30 is 51 deltas deep, every recorded Depth <= 30 *)
+Theorem C07_depth_bound_chains_refuted :
+  ~ (forall window objs order dsz st ord,
+       (forall b t, (0 <= dsz b t)%Z) -> sizes_ok objs = true ->
+       select window objs order dsz = inl (st, ord) ->
+       forall fuel u, (Z.of_nat (chain_len (sb st) fuel u) <= maxDepth)%Z).
+Proof.
+  intros H. destruct reuse_depth_witness as [E [_ [W _]]].
+  assert (D : forall b t : nat, (0 <= 20)%Z) by (intros; discriminate).
+  assert (S : sizes_ok wit_objs = true) by (vm_compute; reflexivity).
+  pose proof (H 2%nat wit_objs (seq 0 52) (fun _ _ => 20%Z) wit_st (seq 0 52) D S E 100%nat 51%nat) as H1.
+  rewrite W in H1. vm_compute in H1. apply H1. reflexivity.
+Qed.
+Print Assumptions C07_depth_bound_chains_refuted.
+
+(* every graph the selector can produce satisfies the hypotheses of C07_resolves, so the pack the encoder writes
+   from it resolves, entry by entry, to the requested objects: bases are entries of the list; a new delta is
+   diffDelta's output against its final base (C07_new_deltas_ok); a reused delta is the stored one, applied to the
+   object carrying the id of its base (storer consistency, the only assumption) *)
+Theorem C07_selector_resolves : forall window objs order dsz st ord (content stored : nat -> bytes) (pick : nat -> option nat) esize es,
+  (forall b t, (0 <= dsz b t)%Z) -> sizes_ok objs = true ->
+  select window objs order dsz = inl (st, ord) ->
+  (forall u b bk asz, so_stored (obj_at objs u) = Some (bk, asz) -> so_key (obj_at objs b) = bk ->
+     patch_delta (content b) (stored u) = Ok (content u)) ->
+  (forall u, (len (content u) <= 2 ^ 32)%N) ->
+  (forall o, (0 < esize o)%N) ->
+  let base0 := base_fun (sel_nodes objs st ord) in
+  let orig := fun k => content (nth k ord 0%nat) in
+  (exists delta, (forall k b, base0 k = Some b -> b < List.length ord) /\
+                 (forall k b, base0 k = Some b -> patch_delta (orig b) (delta k) = Ok (orig k))) /\
+  (encode (List.length ord) base0 esize = Some es ->
+   exists delta, resolved orig delta (rev es) = Some (map (fun e => (e_node e, orig (e_node e))) (rev es))).
+Proof.
+  intros window objs order dsz st ord content stored pick esize es Hd Hs H Hst Hsm Hp base0 orig. split.
+  - exact (select_hyps window objs order dsz st ord Hd (sizes_ok_spec objs Hs) H content stored pick Hst Hsm).
+  - intros He.
+    exact (select_resolves window objs order dsz st ord Hd (sizes_ok_spec objs Hs) H content stored pick Hst Hsm esize es Hp He).
+Qed.
+Print Assumptions C07_selector_resolves.
+
+(* window 0 and window 1: no delta is created; with window 0 nothing is reused either and the request order is kept *)
+Theorem C07_window_0_1 : forall objs order dsz,
+  (exists st, select 0 objs order dsz = inl (st, seq 0 (List.length objs)) /\ forall u, sb st u = None) /\
+  (forall st ord, no_reuse_b objs = true -> select 1 objs order dsz = inl (st, ord) -> forall u, sb st u = None).
+Proof.
+  intros objs order dsz. split.
+  - eexists. split; [reflexivity | reflexivity].
+  - intros st ord Hn H u. unfold select in H. rewrite (fix_all_noreuse objs _ (no_reuse_b_spec objs Hn)) in H.
+    destruct (is_perm (List.length objs) order && sorted_by objs (init_state objs) order); [|discriminate].
+    cbn [negb] in H. injection H as <- <-.
+    assert (G : forall gs s, (forall x, sb s x = None) ->
+              forall x, sb (fold_left (fun s g => walk_go objs dsz 1 [] g s) gs s) x = None).
+    { induction gs as [|g r IH]; intros s Hs x; [apply Hs|]. cbn [fold_left]. apply IH.
+      assert (W : forall rest before s', (forall y, sb s' y = None) -> forall y, sb (walk_go objs dsz 1 before rest s') y = None).
+      { induction rest as [|t r' IHr]; intros before s' Hs' y; [apply Hs'|]. cbn [walk_go]. apply IHr.
+        rewrite (Hs' t). cbn [Nat.sub firstn fold_left]. destruct (negb (deltable (so_typ (obj_at objs t)))); exact Hs'. }
+      apply W. exact Hs. }
+    apply G. intros x. reflexivity.
+Qed.
+Print Assumptions C07_window_0_1.
+
 (* ---- non-vacuity: a 3-cycle plus a node hanging off it; the cycle is broken at node 0 *)
 Example C07_cycle_example :
   encode 4 (fun k => match k with 0 => Some 1 | 1 => Some 2 | 2 => Some 0 | 3 => Some 2 | _ => None end) (fun _ => 10%N)
@@ -93,3 +238,22 @@ Proof. vm_compute. reflexivity. Qed.
 Example C07_varint_example :
   entry_head 3 300 = [188; 18]%N /\ ofs_encode 300 = [129; 44]%N /\ ofs_encode 128 = [128; 0]%N.
 Proof. vm_compute. repeat split. Qed.
+
+(* non-vacuity of the selector theorems: three similar blobs, window 10: a chain of two deltas *)
+Example C07_select_example :
+  match select 10 [mkSObj 0 3 300 None; mkSObj 1 3 310 None; mkSObj 2 3 290 None] [1; 0; 2]%nat (fun _ _ => 12%Z) with
+  | inl (st, ord) => ord = [1; 0; 2]%nat /\ sb st 1%nat = None /\ sb st 0%nat = Some 1%nat /\ sb st 2%nat = Some 0%nat /\
+                     sd st 2%nat = 2%Z /\ chain_len (sb st) 10 2 = 2%nat
+  | inr _ => False
+  end.
+Proof. vm_compute. repeat split. Qed.
+
+(* ---- DeltaSelector.deltaSizeLimit is regenerated from delta_selector.go on every run
+   (Gen/C07.v, with Go's int64 wrap-around explicit): on every argument the selector
+   can pass it is the model's delta_size_limit *)
+From GoGit Require Import Base.GoInt Gen.C07 Proofs.C07Leaf.
+Theorem C07_delta_size_limit_tied : forall n bd td isd,
+  (0 <= n < 2 ^ 50)%Z -> (0 <= bd <= pk7_maxDepth)%Z -> (0 <= td < 2 ^ 31)%Z ->
+  pk7_DeltaSelector_deltaSizeLimit n bd td isd = delta_size_limit n bd td isd.
+Proof. exact deltaSizeLimit_gen_spec. Qed.
+Print Assumptions C07_delta_size_limit_tied.
